@@ -3,6 +3,7 @@ package main
 import (
 	"bytes"
 	"fmt"
+	"math/bits"
 	"math/rand"
 	"sort"
 	"strconv"
@@ -212,6 +213,11 @@ func (st *cacheState) apply(op []string, o *hx.Out) {
 			var ks [][]byte
 			st.c.ForEachCloser(hx.UnHex(op[1]), func(e kademlia.Entry[[]byte]) bool { ks = append(ks, e.Key); return true })
 			return keysStr(ks)
+		case "matching":
+			var ks [][]byte
+			nbits, _ := strconv.Atoi(op[2])
+			st.c.ForEachMatching(hx.Exact(hx.UnHex(op[1])), nbits, func(e kademlia.Entry[[]byte]) bool { ks = append(ks, e.Key); return true })
+			return keysStr(ks)
 		}
 		return "bad-op"
 	})
@@ -276,8 +282,23 @@ func cacheSeq(r *rand.Rand, nops int, allowShort bool, emit func(op string)) {
 			emit("foreach " + hx.Hex(g.query(r)))
 		case x < 17:
 			emit("closest " + hx.Hex(g.query(r)))
-		case x < 19:
+		case x < 18:
 			emit("closer " + hx.Hex(g.query(r)))
+		case x < 19:
+			// prefix queries: a prefix of the locus, of an entry-like key, or random; bit counts around the byte
+			// boundaries and the prefix length
+			p := g.query(r)
+			if len(p) > 0 && r.Intn(2) == 0 {
+				p = p[:1+r.Intn(len(p))]
+			}
+			nb := hx.Pick(r, 0, 1, 4, 7, 8, 9, 15, 16, 17, 8*len(p)-1, 8*len(p), r.Intn(8*len(p)+1))
+			if nb < 0 {
+				nb = 0
+			}
+			if nb > 8*len(p) && r.Intn(10) > 0 { // asking for more bits than the prefix has is a documented panic: rare
+				nb = 8 * len(p)
+			}
+			emit(fmt.Sprintf("matching %s %d", hx.Hex(p), nb))
 		default:
 			emit("count")
 		}
@@ -317,7 +338,7 @@ func cacheOracle(r *rand.Rand, n int, tier string, infile string, checkMap, chec
 		var st *cacheState
 		var refm map[string]ref
 		var hist []string
-		var max int
+		var max, minPer int
 		o := hx.NewOut("/dev/null", 0)
 		defer o.Close("")
 		for _, op := range ops {
@@ -328,6 +349,7 @@ func cacheOracle(r *rand.Rand, n int, tier string, infile string, checkMap, chec
 				refm = map[string]ref{}
 				hist = hist[len(hist)-1:]
 				max, _ = strconv.Atoi(op[2])
+				minPer, _ = strconv.Atoi(op[3])
 			}
 			if st == nil {
 				continue
@@ -336,6 +358,11 @@ func cacheOracle(r *rand.Rand, n int, tier string, infile string, checkMap, chec
 			st.apply(op, o)
 			_ = before
 			res := o.Last()
+			if res == "fault" && op[0] == "matching" {
+				if nb, _ := strconv.Atoi(op[2]); nb > 8*len(hx.UnHex(op[1])) {
+					continue // more bits than the prefix has: HasPrefix panics by contract ("nbits longer than prefix")
+				}
+			}
 			if res == "fault" {
 				fail(hist, "panic (%s)", hx.LastPanic)
 				st = nil
@@ -358,6 +385,31 @@ func cacheOracle(r *rand.Rand, n int, tier string, infile string, checkMap, chec
 						fail(hist, "reported victim %s was not in the cache", ev)
 					}
 					delete(refm, ev)
+					if checkMap {
+						// the victim comes from the farthest bucket that holds more than the protected minimum (inside a bucket
+						// the newest entry goes: C18 is read at bucket granularity, as the theorem victim_farthest_unprotected is).
+						// Buckets by the usual rule: the number of leading bits a key shares with the locus.
+						bucketOf := func(k []byte) int {
+							for i := 0; i < len(k) && i < len(st.locus); i++ {
+								if x := k[i] ^ st.locus[i]; x != 0 {
+									return 8*i + bits.LeadingZeros8(x)
+								}
+							}
+							return 8 * len(st.locus)
+						}
+						counts := map[int]int{}
+						for k := range refm {
+							counts[bucketOf(hx.UnHex(k))]++
+						}
+						v := hx.UnHex(ev)
+						for k := range refm {
+							x := hx.UnHex(k)
+							if counts[bucketOf(x)] > minPer && bucketOf(v) > bucketOf(x) {
+								fail(hist, "C18 evicted %s (shares %d leading bits with the locus %x) although %s, in a farther bucket (%d bits) that holds more than the protected minimum, was kept", ev, bucketOf(v), st.locus, k, bucketOf(x))
+								break
+							}
+						}
+					}
 				}
 			case "get":
 				want := "none"
@@ -385,6 +437,27 @@ func cacheOracle(r *rand.Rand, n int, tier string, infile string, checkMap, chec
 				}
 				if strings.Fields(res)[0] != ws && checkMap {
 					fail(hist, "Expire(%d) removed %s, exactly the expired entries are %s", now, strings.Fields(res)[0], ws)
+				}
+			case "matching":
+				if checkOrder && res != "fault" {
+					prefix := hx.UnHex(op[1])
+					nbits, _ := strconv.Atoi(op[2])
+					got := map[string]int{}
+					if res != "-" {
+						for _, s := range strings.Split(res, ",") {
+							got[s]++
+						}
+					}
+					for k := range refm {
+						kb := hx.UnHex(k)
+						want := len(kb)*8 >= nbits && sharedBits(kb, prefix) >= nbits
+						if want && got[k] != 1 {
+							fail(hist, "ForEachMatching(%s, %d bits) visits %s %d times, it has the prefix", op[1], nbits, k, got[k])
+						}
+						if !want && got[k] != 0 {
+							fail(hist, "ForEachMatching(%s, %d bits) visits %s, which does not have the prefix", op[1], nbits, k)
+						}
+					}
 				}
 			case "foreach", "closest", "closer":
 				k := hx.UnHex(op[1])
@@ -532,4 +605,14 @@ func cacheOrderOracle(kind string, k, locus []byte, got [][]byte, all [][]byte, 
 			return
 		}
 	}
+}
+
+// sharedBits is the number of leading bits a and b have in common (over the shorter of the two)
+func sharedBits(a, b []byte) int {
+	for i := 0; i < len(a) && i < len(b); i++ {
+		if x := a[i] ^ b[i]; x != 0 {
+			return 8*i + bits.LeadingZeros8(x)
+		}
+	}
+	return 8 * min(len(a), len(b))
 }
